@@ -704,14 +704,40 @@ func (m *FakeMaster) execMessage(cmd *Command) {
 		resp["state"] = st
 	}
 	b, _ := json.Marshal(resp)
-	m.logf("reply", m.tick(), resp)
-	m.SendMessage(cmd.AgentID, cmd.ExecID, b)
+	// causality: a task that is already terminal (or whose executor/agent was declared lost) cannot speak anymore
+	if !m.sendFromTask(cmd.TaskID, cmd.AgentID, cmd.ExecID, b, resp) {
+		return
+	}
 	if rep.Duplicate {
 		m.SendMessage(cmd.AgentID, cmd.ExecID, b)
 	}
 	if rep.Then != nil {
 		rep.Then()
 	}
+}
+
+// sendFromTask delivers an executor message on behalf of a task unless the task is already gone; the liveness test and the
+// hand-over to the event stream happen under the master lock, so a later failure injection is ordered after the message.
+func (m *FakeMaster) sendFromTask(taskID, agentID, execID string, data []byte, logged interface{}) bool {
+	m.mu.Lock()
+	t := m.tasks[taskID]
+	if t == nil || t.Terminal {
+		m.mu.Unlock()
+		m.logf("reply-dropped", m.tick(), map[string]string{"task": taskID, "why": "task is terminal / executor or agent lost"})
+		return false
+	}
+	ch := m.events
+	seq := m.tick()
+	if ch != nil {
+		select {
+		case ch <- &scheduler.Event{Type: scheduler.Event_MESSAGE, Message: &scheduler.Event_Message{
+			AgentID: mesos.AgentID{Value: agentID}, ExecutorID: mesos.ExecutorID{Value: execID}, Data: data}}:
+		default:
+		}
+	}
+	m.mu.Unlock()
+	m.logf("reply", seq, logged)
+	return ch != nil
 }
 
 // SendDeviceEvent emits a device event for a task, built with the repository's own event types.
